@@ -344,11 +344,19 @@ func parseBalanceChange(rawData []byte, sl types.StakerList) (map[string]int, er
 		for i := 7; i >= 0; i-- {
 			index++
 			if (b>>i)&1 == 1 {
+				// the indexes and the changes come from the price feeders, so every access is checked:
+				// an out-of-range access would panic, and this function is also reached from EndBlock
+				if byteIndex >= len(changes) {
+					return stakerChanges, errors.New("balance changes are shorter than indicated by the staker indexes")
+				}
 				lenValue := changes[byteIndex] << bitOffset
 				bitsLeft := 8 - bitOffset
 				lenValue >>= (8 - lengthBits)
 				if bitsLeft < lengthBits {
 					byteIndex++
+					if byteIndex >= len(changes) {
+						return stakerChanges, errors.New("balance changes are shorter than indicated by the staker indexes")
+					}
 					lenValue |= changes[byteIndex] >> (8 - lengthBits + bitsLeft)
 					bitOffset = lengthBits - bitsLeft
 				} else {
@@ -369,6 +377,9 @@ func parseBalanceChange(rawData []byte, sl types.StakerList) (map[string]int, er
 				bitsExtracted := 0
 				stakerChange := 0
 				for bitsExtracted < int(lenValue) {
+					if byteIndex >= len(changes) {
+						return stakerChanges, errors.New("balance changes are shorter than indicated by the staker indexes")
+					}
 					bitsLeft := 8 - bitOffset
 					byteValue := changes[byteIndex] << bitOffset
 					if (int(lenValue) - bitsExtracted) < bitsLeft {
@@ -385,6 +396,9 @@ func parseBalanceChange(rawData []byte, sl types.StakerList) (map[string]int, er
 				stakerChange++
 				if symbol == 1 {
 					stakerChange *= -1
+				}
+				if index >= len(sl.StakerAddrs) {
+					return stakerChanges, errors.New("balance change indicated for a staker index beyond the staker list")
 				}
 				stakerChanges[sl.StakerAddrs[index]] = stakerChange
 			}
